@@ -272,6 +272,28 @@ func genCallFor(rt *rapid.T, ep *endpoint) callCase {
 			}
 		}
 	}
+	if c.outcome == "ok" && rapid.IntRange(0, 11).Draw(rt, "bigArgument") == 0 {
+		// one argument of several KiB to several hundred KiB (beyond what sits in a transport's first read)
+		for i, a := range c.args {
+			var big reflect.Value
+			n := rapid.SampledFrom([]int{5000, 20000, 70000, 300000}).Draw(rt, "bigSize")
+			if ep != nil && ep.kind == "udp" && n > 20000 {
+				n = 20000
+			}
+			switch {
+			case a.Type() == reflect.TypeOf(""):
+				big = reflect.ValueOf(strings.Repeat("big argument ", n/13+1)[:n])
+			case a.Type() == reflect.TypeOf([]byte(nil)):
+				big = reflect.ValueOf([]byte(strings.Repeat("B", n)))
+			case a.Type() == reflect.TypeOf([]string(nil)):
+				big = reflect.ValueOf([]string{strings.Repeat("s", n/2), strings.Repeat("t", n/2)})
+			default:
+				continue
+			}
+			c.args[i] = big
+			break
+		}
+	}
 	c.mode = "invoke"
 	c.name = c.f.Name
 	if _, ok := proxyField[c.f.Name]; ok && rapid.Bool().Draw(rt, "viaProxy") {
